@@ -21,10 +21,10 @@ SeqOK(e, got) ==
 
 Multi(e) ==
   LET o == e.obs IN
-  /\ o.find_err = "nil" /\ o.find_ptr_err = "nil" /\ o.maps_err = "nil" /\ o.rows_err = "nil" /\ o.scan_err = "nil" /\ o.pluck_err = "nil"
+  /\ o.find_err = "nil" /\ o.find_ptr_err = "nil" /\ o.maps_err = "nil" /\ o.rows_err = "nil" /\ o.scan_err = "nil" /\ o.pluck_err = "nil" /\ o.count_find_err = "nil"
   /\ SeqOK(e, o.find) /\ o.find_ra = Len(o.find)                   \* RowsAffected equals the rows returned
-  /\ (e.order # "" => (o.find_ptr = o.find /\ o.maps = o.find /\ o.rows = o.find /\ o.scan = o.find /\ o.pluck = o.find))
-  /\ SeqOK(e, o.find_ptr) /\ SeqOK(e, o.maps) /\ SeqOK(e, o.rows) /\ SeqOK(e, o.scan) /\ SeqOK(e, o.pluck)
+  /\ (e.order # "" => (o.find_ptr = o.find /\ o.maps = o.find /\ o.rows = o.find /\ o.scan = o.find /\ o.pluck = o.find /\ o.count_find = o.find))
+  /\ SeqOK(e, o.find_ptr) /\ SeqOK(e, o.maps) /\ SeqOK(e, o.rows) /\ SeqOK(e, o.scan) /\ SeqOK(e, o.pluck) /\ SeqOK(e, o.count_find)   \* (count_find: a read continued from what Count returns)
 
 Single(e) ==
   LET o == e.obs
